@@ -819,7 +819,7 @@ func twoConnections(x *explore.X) {
 
 func TestC02(t *testing.T) {
 	s := explore.NewSuite(t, "C02", "exploration",
-		"sequences of 1-3 exchanges on one client connection; each exchange = request method(3) x client version(2) x client Connection option(3) x origin status(10, incl. status lines without reason phrase and without the space after the code) x header shape(9) x framing(CL, chunked, EOF-delimited 1.1, EOF-delimited 1.0, CL from a keep-alive HTTP/1.0 origin) x size(10) x chunking/trailers(5) x content(plain, gzip solicited by the proxy, gzip solicited by the client, event stream) x origin write segmentation(8) x octets arriving with the request(nothing, a stray CRLF, the beginning of a further request that never completes) x configuration(TCP server, TestingHTTPHandler, MITM) x configured --response-header rule set(6: none, append, remove, prefix removal, rename, set-empty+remove); all combinations with at most D deviations (D=3 quick, 4 thorough) from the default sequence are executed and the client's byte stream is parsed by the independent parser and compared message by message with expectResponse; plus (two-connections) the full product framing x gzip x size x mode (optionally after an earlier download that its client aborted mid-body) of two connections of which one client stops reading in the middle of a 70000-byte response while the other performs a complete exchange, both compared exactly; plus the full product of the incremental-delivery scenario (stream kind x event size x events x client version x configuration); non-trivial = at least one response was compared")
+		"sequences of 1-3 exchanges on one client connection; each exchange = request method(3) x client version(2) x client Connection option(3) x origin status(10, incl. status lines without reason phrase and without the space after the code) x header shape(9) x framing(CL, chunked, EOF-delimited 1.1, EOF-delimited 1.0, CL from a keep-alive HTTP/1.0 origin) x size(10) x chunking/trailers(5) x content(plain, gzip solicited by the proxy, gzip solicited by the client, event stream) x origin write segmentation(8) x octets arriving with the request(nothing, a stray CRLF, the beginning of a further request that never completes) x configuration(TCP server, TestingHTTPHandler, MITM) x configured --response-header rule set(6: none, append, remove, prefix removal, rename, set-empty+remove); all combinations with at most D deviations (D=3 quick, 4 thorough) from the default sequence are executed and the client's byte stream is parsed by the independent parser and compared message by message with expectResponse; plus (two-connections) the full product framing x gzip x size x mode (optionally after an earlier download that its client aborted mid-body) of two connections of which one client stops reading in the middle of a 70000-byte response while the other performs a complete exchange, both compared exactly; plus the full product of the incremental-delivery scenario (stream kind x event size x events x client version x configuration); non-trivial = at least one response was compared; (round 9) incremental family x {events at once, events 40 s apart while HTTPServerConfig.ReadTimeout - a limit for reading REQUESTS - is 30 s}")
 	s.Assume = []string{"simnet models TCP", "httpwire is trusted", "compress/gzip is used to build and check gzip bodies"}
 	s.Add(explore.Scenario{Name: "exchanges", Remote: true, MaxDev: map[string]int{"quick": 3, "thorough": 4},
 		Run: func(x *explore.X) { world.Run(t, x, func() { scenario(x, false) }) }})
